@@ -166,6 +166,19 @@ class _CanonCompare(ast.NodeTransformer):
         return node
 
 
+class _CanonAdd(ast.NodeTransformer):
+    """numeric literal of a sum to the right: `1 + j` is analysed as `j + 1` (index arithmetic
+    is recognised in one spelling only)"""
+
+    def visit_BinOp(self, node):
+        self.generic_visit(node)
+        if isinstance(node.op, ast.Add) and isinstance(node.left, ast.Constant) \
+                and isinstance(node.left.value, (int, float)) and not isinstance(node.left.value, bool) \
+                and not isinstance(node.right, ast.Constant):
+            return ast.copy_location(ast.BinOp(node.right, ast.Add(), node.left), node)
+        return node
+
+
 class Module:
     def __init__(self, name, path, relpath):
         self.name = name
@@ -180,6 +193,7 @@ class Module:
         except SyntaxError as e:
             raise AnalysisError(f"cannot parse {relpath}: {e}")
         _CanonCompare().visit(self.tree)
+        _CanonAdd().visit(self.tree)
         self.imports = {}     # local name -> (module name, attr or None)
         self.functions = {}
         self.classes = {}
